@@ -465,6 +465,9 @@ def _dim_items(args, kwargs):
 def call_term_method(it, recv, name, args, kwargs, env, node):
     t = [to_term(a) for a in args]
     if name in IDENTITY_METHODS:
+        if name == "astype" and t and T.str_of(t[0]) in ("float64", "float", "float32", "double") and fname(recv) == "datetime64" \
+                and hasattr(it, "type_hints") and recv not in it.type_hints:
+            it.type_hints[recv] = "numbers.Number"      # a time stamp cast to floating point seconds is a plain number from here on
         return recv
     if name == "fillna":
         v = args[0] if args else kw(kwargs, "value", num(0))
